@@ -53,7 +53,12 @@ def gen_atom(rng, tasks):
                        'eq', 'levels', 'levels', 'instant', 'eternity', 'partial', 'partial'])
     if kind == 'partial':
         # tracked values that are only partially ordered: sets (by inclusion) and NaN
-        if rng.random() < 0.6:
+        roll = rng.random()
+        if roll < 0.3:
+            # enum-like values: objects that have an attribute `value` themselves
+            return {'k': 'tracked', 'i': 4, 'cmp': rng.choice(['lt', 'le', 'eq', 'ne', 'ge', 'gt']),
+                    'v': {'mode': rng.randint(0, 3)}}
+        if roll < 0.7:
             return {'k': 'tracked', 'i': 2, 'cmp': rng.choice(['lt', 'le', 'eq', 'ne', 'ge', 'gt']),
                     'v': {'set': sorted(rng.sample([1, 2, 3], rng.randint(0, 3)))}}
         return {'k': 'tracked', 'i': 3, 'cmp': rng.choice(['lt', 'le', 'eq', 'ne', 'ge', 'gt']),
@@ -123,7 +128,7 @@ def build(case):
     # its pairs  now + (date - now)  is not the date
     rng.scale = 0 if case['index'] % 4 == 3 else 1
     ids = Ids()
-    objects = {'flags': 3, 'tracked': [0, 1, {'set': [1]}, 1.0],
+    objects = {'flags': 3, 'tracked': [0, 1, {'set': [1]}, 1.0, {'mode': 1}],
                'resources': [{'kind': 'resources', 'levels': {'a': 2, 'b': 1}}]}
     n_tasks = rng.choice([0, 0, 1, 2])
     tasks = ['T%d' % index for index in range(n_tasks)]
@@ -161,7 +166,10 @@ def gen_driver(rng, ids):
                 driver.append({'op': 'setflag', 'f': rng.randrange(3), 'v': rng.random() < 0.6,
                                'via_inverse': rng.random() < 0.25, 'id': ids('d')})
             elif roll < 0.55:
-                if rng.random() < 0.6:
+                if rng.random() < 0.3:
+                    driver.append({'op': 'settracked', 'i': 4, 'id': ids('d'),
+                                   'v': {'mode': rng.randint(0, 3)}})
+                elif rng.random() < 0.6:
                     driver.append({'op': 'settracked', 'i': 2, 'id': ids('d'),
                                    'v': {'set': sorted(rng.sample([1, 2, 3], rng.randint(0, 3)))}})
                 else:
